@@ -213,6 +213,12 @@ func c09B6(r *core.R) {
 				carries = true
 			}
 		}
+		// the pair may have been built elsewhere (in the spawner) and handed over through a parameter / pointer
+		for _, sb := range c09SentBuilds(m, f, snd.Value, s.unit().fi, map[types.Object]bool{}, 0) {
+			if c09FirstValue(m, objOf(info, sb.blob), firstBlob) {
+				carries = true
+			}
+		}
 		if !carries {
 			return true
 		}
